@@ -193,7 +193,7 @@ def rt_inputs(rng):
               b'A' * 13, b'A' * 10, b'A' * 17, b'\xfaaaa', b'AB\rCDE', b'AB\r>ABC123>AB', b'\x85AB', bytes(range(128, 140)), b'*****', b'Hello, World!',
               b'\xab\xe4\xf6\xfc\xe9\xbb', b'AIMAIMAIM', b'aimaimaim', b'ab*de', b'A*B>C D', b'....', b'12*45', b'\x00\x01\x02', b'\x7f\x80\xff']
     # capacity and length-header boundaries (largest symbol: 1558 codewords = 1555 Base 256 bytes = 3116 digits = 2335 C40 characters)
-    for n in (1554, 1555, 1556):
+    for n in (1554, 1555, 1556, 2800, 3116):
         yield b'\xe1' * n
     for n in (3116, 3117):
         yield b'7' * n
